@@ -2,31 +2,52 @@
 from ..gen import cells as G
 from ..gen import scripts as S
 from ..gen import msgs as M
+from ..gen import wrappers as W
 
 SPEC = dict(
     manifest=dict(
         category='proof',
         text='Lean theorems over a hand model of MessageAny/CommonMsgInfo/StateInit/CurrencyCollection serialize+deserialize '
              '(Model/Message.lean, built on the Builder/Slice model) against an independent block.tlb reading (Spec/Tlb/Message.lean): '
-             'serialisation never runs out of room when the header leaves 3 bits (bound shown tight), the cell decodes under the spec '
-             'to the same message, and the parser agrees with the spec decoder on every valid encoding (all four Either choices). '
-             'Model = library is checked differentially on a boundary sweep of the joint bit/ref budget; the property itself is '
-             'evaluated on the library against a second, Python transcription of the schema.',
-        level_note='theorems are about the hand model; model = pytoniq-core only on the generated inputs (sampled). The extra-currency '
-                   'dictionary and the library field are optional root references (dictionary contents are C09/C10). '
-                   'HighloadWalletData.old_queries is a recorded finding (F23).',
+             'serialisation never runs out of room when the header leaves 3 bits (bound shown tight; no bound needed at all for '
+             'Message X proper without anycast in an internal header: header <= 1007 bits), the cell decodes under the spec '
+             'to the same message, the parser agrees with the spec decoder on every valid encoding (all four Either choices), and the '
+             'strict reader (address classes of Message X) is sound/complete w.r.t. the union reader. '
+             'The same three theorems (serialize = spec encoding and never fails for fields in range; spec decoder inverts it; own '
+             'parser = spec decoder on every cell the decoder accepts) for every stand-alone wrapper: StateInit, CurrencyCollection, '
+             'WalletV3Data, WalletV4Data, HashUpdate, NftItemData, NftItemSaleFees, NftItemSaleData (Spec/Tlb/Wrappers.lean from the '
+             'contracts\' storage layouts, Model/Wrappers.lean from the code). The two half-implemented wrappers are characterised '
+             'exactly: HighloadWalletData.serialize writes the value with old_queries emptied, so the round trip holds iff old_queries '
+             'is empty (c15_highload_round_trip_iff); WalletMessage.serialize is correct, WalletMessage.deserialize returns None on '
+             'every cell (c15_wallet_message_own_parser_stub) -- finding F23. '
+             'Model = library is checked differentially on a boundary sweep of the joint bit/ref budget and on boundary values of '
+             'every wrapper field; the property itself is evaluated on the library against a second, Python transcription of the '
+             'schemas (library serialize -> spec decoder; spec encoding -> library parser).',
+        level_note='theorems are about the hand model; model = pytoniq-core only on the generated inputs (sampled). Dictionaries '
+                   '(extra currencies, library, plugins, old_queries) are optional root references (dictionary contents are C09/C10). '
+                   'bits256 fields must be 32 bytes: the library does not check the length (a shorter key serialises to a cell that is '
+                   'not a valid value; shown as an example, outside the property). F23 (HighloadWalletData.old_queries, '
+                   'WalletMessage.deserialize) is a recorded finding with two keys.',
         technique='Lean 4 proof (hand model) + differential correspondence with the library'),
     design_ref='DESIGN.md §6 C15',
     rule='boundary sweep: header kind (internal / ext-in / ext-out) x extra-currency dict (0/1/many entries) x state-init shape '
          '(absent, 0..3 refs, split_depth, tick-tock) x body bits {0, 1, each exact inline limit -1/0/+1, 1023} x body refs 0..4, plus '
          'seeded random messages (addresses none/extern/std/anycast, boundary amounts); every message: library serialize -> Python spec '
-         'decoder + Lean spec decoder + Lean model (cell hash); the spec encodings for all four Either choices -> library deserialize + '
-         'Lean model parser; distinct = distinct (message, check); non-trivial = every case',
+         'decoder + Lean spec decoder (+ strict reader) + Lean model (cell hash); the spec encodings for all four Either choices -> library '
+         'deserialize + Lean model parser. Wrappers: per class the boundary values of every field (0, 1, 2^n-1, default wallet id; '
+         'addr_none / std / anycast / extern 0,9,511 bits; Grams per byte length; empty / non-empty dictionaries; cells that exactly fill or '
+         'overflow 1023 bits), seeded random values, out-of-range values (model error points) and truncated / extended / re-tagged cells '
+         '(parsers on foreign cells): library serialize -> Python spec decoder, Python spec encoding -> library deserialize, Lean model '
+         'serialize/parse and Lean spec encode/decode on the same cells; distinct = distinct (value, check); non-trivial = every case',
     trusted_base=['Spec/Tlb/Message.lean is the reading of block.tlb (Message X, CommonMsgInfo, StateInit, CurrencyCollection)',
-                  'Model/Message.lean mirrors tlb/transaction.py, tlb/account.py, tlb/block.py (currency), tlb/custom/*.py by hand',
-                  'harness/gen/msgs.py: second transcription of the schema (oracle), canonical strings, library object construction',
-                  'extra-currency dictionaries are serialised/parsed by the library HashMap (C09/C10) and treated as opaque root cells'],
-    assumptions=['correspondence is sampled differential testing', 'referenced cells (code/data/library/body/dict root) are ordinary cells',
+                  'Spec/Tlb/Wrappers.lean is the reading of the wallet v3/v4/highload-v2, NFT item (TEP-62) and getgems fix-price sale '
+                  'storage layouts and of update_hashes#72',
+                  'Model/Message.lean, Model/Wrappers.lean mirror tlb/transaction.py, tlb/account.py, tlb/block.py (currency), tlb/utils.py '
+                  '(HashUpdate), tlb/custom/*.py by hand',
+                  'harness/gen/msgs.py, harness/gen/wrappers.py: second transcription of the schemas (oracle), canonical strings, library '
+                  'object construction',
+                  'dictionaries are serialised/parsed by the library HashMap (C09/C10) and treated as opaque root cells'],
+    assumptions=['correspondence is sampled differential testing', 'referenced cells (code/data/library/body/dict root/content) are ordinary cells',
                  'cells of depth > 1023 (Cell constructor raises) are outside "lack of room"'],
 )
 
@@ -39,6 +60,16 @@ def must_fit(msg):
     """the bound of c15_never_overflows: header bits + 3 <= 1023 (with init) / + 2 (without)"""
     ib = info_bits(msg['info'])
     return ib + (3 if msg['init'] is not None else 2) <= 1023
+
+
+def conforms(info):
+    """Message X proper (block.tlb): int_msg_info src,dest:MsgAddressInt; ext_in src:MsgAddressExt dest:MsgAddressInt; ext_out the converse"""
+    is_int = lambda a: a[0] == 's'
+    if info[0] == 'I':
+        return is_int(info[4]) and is_int(info[5])
+    if info[0] == 'X':
+        return not is_int(info[1]) and is_int(info[2])
+    return is_int(info[1]) and not is_int(info[2])
 
 
 def short(msg):
@@ -136,6 +167,9 @@ def check_msg(ctx, msg, tag, all_choices=True):
             dc = M.Dag()
             ci = dc.add(c)
             ctx.expect_model(f'msgdec {dc.line()} {ci}', 'ok ' + want, f'{tag} spec-decode of library cell')
+            conf = conforms(msg['info'])
+            ctx.count('message-x-proper' if conf else 'relaxed-address-classes')
+            ctx.expect_model(f'msgdecs {dc.line()} {ci}', 'ok ' + want if conf else 'err', f'{tag} strict reader (Message X proper: {conf})')
         own = lib_parse(c)
         if own != want:
             ctx.fail(f'ser-own:{sh[0]}:extra{sh[1]}:init{sh[2]}', 'MessageAny.deserialize(serialize(m)) is a different message', inp, own, want)
@@ -253,82 +287,164 @@ def check_currency(ctx, grams, extra, tag):
     ctx.expect_model(f'ccpar {dc.line()} {ci}', 'ok ' + want, f'{tag} CurrencyCollection model parser')
 
 
-def check_wrappers(ctx, pool):
-    from pytoniq_core.tlb.custom.wallet import WalletV3Data, WalletV4Data, HighloadWalletData, WalletMessage
-    from pytoniq_core.tlb.custom.nft import NftItemData
-    from pytoniq_core.tlb.utils import HashUpdate
-    rng = ctx.rng
-    u32 = lambda: rng.choice([0, 1, (1 << 32) - 1, rng.getrandbits(32)])
-
-    def one(kind, tok, obj, spec_bits, spec_refs, parse, want_fields):
-        inp = {'wrapper': kind, 'value': tok}
-        ctx.case((kind, tok))
-        ctx.count('wrapper:' + kind)
-        try:
-            c = obj.serialize()
-        except Exception as e:
-            ctx.fail(kind + '-raises', f'{kind}.serialize raised', inp, repr(e), 'a cell')
-            return
-        if (c.bits.to01(), [r.hash for r in c.refs]) != (spec_bits, [r.hash for r in spec_refs]):
-            ctx.fail(kind + '-spec', f'{kind}.serialize is not the encoding of its TL-B declaration', inp, M.show_cell(c),
-                     M.show_cell(M.mk_cell(spec_bits, spec_refs)))
-            return
-        d = M.Dag()
-        t = tok(d)
-        ctx.expect_model(f'wser {d.line()} {t}', M.show_cell(c), f'{kind}.serialize')
-        if parse is None:
-            return
-        try:
-            back = parse(c)
-        except Exception as e:
-            back = repr(e)
-        if back != want_fields:
-            ctx.fail(kind + '-parse', f'{kind}.deserialize(serialize(v)) differs', inp, back, want_fields)
-        dc = M.Dag()
-        ci = dc.add(c)
-        ctx.expect_model(f'wpar {dc.line()} {ci} {t.split(";")[0]}', 'ok ' + want_fields, f'{kind}.deserialize')
-
-    for _ in range(ctx.n(12, 100)):
-        pk = rng.randbytes(32)
-        sq, wid = u32(), u32()
-        base = S.enc_uint(sq, 32) + S.enc_uint(wid, 32) + G.bytes_to_bits(pk)
-        one('WalletV3Data', lambda d: f'v3;{sq};{wid};{pk.hex()}', WalletV3Data(sq, wid, pk), base, [],
-            lambda c: (lambda p: f'{p.seqno};{p.wallet_id};{p.public_key.hex()}')(WalletV3Data.deserialize(c.begin_parse())),
-            f'{sq};{wid};{pk.hex()}')
-        pl = rng.choice([None] + pool)
-        one('WalletV4Data', lambda d: f'v4;{sq};{wid};{pk.hex()};{"-" if pl is None else d.add(pl)}', WalletV4Data(sq, wid, pk, pl),
-            base + ('0' if pl is None else '1'), [] if pl is None else [pl],
-            lambda c: (lambda p: f'{p.seqno};{p.wallet_id};{p.public_key.hex()};{M.hx(p.plugins)}')(WalletV4Data.deserialize(c.begin_parse())),
-            f'{sq};{wid};{pk.hex()};{M.hx(pl)}')
-        lc = rng.choice([0, (1 << 64) - 1, rng.getrandbits(64)])
-        # HighloadWalletData: serialise (empty old_queries) vs. its declaration and the model
-        one('HighloadWalletData', lambda d: f'hl;{wid};{lc};{pk.hex()}', HighloadWalletData(wid, lc, pk, None),
-            S.enc_uint(wid, 32) + S.enc_uint(lc, 64) + G.bytes_to_bits(pk) + '0', [], None, None)
-        o, n = rng.randbytes(32), rng.randbytes(32)
-        one('HashUpdate', lambda d: f'hu;{o.hex()};{n.hex()}', HashUpdate(o, n), '01110010' + G.bytes_to_bits(o) + G.bytes_to_bits(n), [],
-            lambda c: (lambda p: f'{p.old_hash.hex()};{p.new_hash.hex()}')(HashUpdate.deserialize(c.begin_parse())), f'{o.hex()};{n.hex()}')
-        idx = rng.choice([0, (1 << 64) - 1, rng.getrandbits(64)])
-        ca, oa = M.rand_addr(rng), M.rand_addr(rng)
-        content = rng.choice(pool)
-        A = lambda p: S.mk_addr([str(x) for x in p])
-        one('NftItemData', lambda d: f'nft;{idx};{M.canon_addr(ca)};{M.canon_addr(oa)};{d.add(content)}',
-            NftItemData(idx, A(ca), A(oa), content), S.enc_uint(idx, 64) + S.enc_addr(ca) + S.enc_addr(oa), [content],
-            lambda c: (lambda p: f'{p.index};{S.show_addr(p.collection_address)};{S.show_addr(p.owner_address)};{M.hx(p.content)}')(NftItemData.deserialize(c.begin_parse())),
-            f'{idx};{M.canon_addr(ca)};{M.canon_addr(oa)};{M.hx(content)}')
-    # F23: HighloadWalletData with old queries -- the dictionary must be written (HashmapE 64 WalletMessage)
-    pk = b'\x07' * 32
-    body = pool[1]
-    wm = WalletMessage(3, M.lib_msg(dict(info=('X', ['n'], ['s', 0, '11' * 32], 0), init=None, body=body)))
-    ctx.case(('highload-old-queries',))
-    ctx.count('wrapper:HighloadWalletData+old_queries')
+def lib_parse_wrapper(kind, cell, v):
+    """<Wrapper>.deserialize(cell.begin_parse()) -> canonical string | 'None' | 'raised <E>' ; for hl also the parsed values"""
     try:
-        c = HighloadWalletData(1, 2, pk, {1: wm}).serialize()
-        ok = len(c.refs) == 1 and c.bits.to01()[-1] == '1'
-    except Exception:
-        ok = False
-    if not ok:
-        ctx.fail('highload-old-queries-dropped', 'HighloadWalletData.serialize does not write old_queries (and WalletMessage.deserialize is a stub)',
-                 {'wrapper': 'HighloadWalletData', 'old_queries': '{1: WalletMessage(3, ext-in message)}'}, 'no dictionary reference', 'hme_root$1 + reference')
+        o = W.lib_class(kind).deserialize(cell.begin_parse())
+    except Exception as e:
+        return f'raised {type(e).__name__}', None
+    try:
+        vals = None
+        if kind == 'hl' and o is not None and o.old_queries is not None:
+            vals = {k: W.canon_lib('wm', x) for k, x in o.old_queries.items()}
+        return W.canon_lib(kind, o, root=v.get('root') if kind == 'hl' else None), vals
+    except Exception as e:
+        return f'unreadable result: {type(e).__name__}', None
+
+
+def check_wrapper(ctx, kind, v, tag):
+    """every C15 check on one value of one stand-alone wrapper"""
+    name = W.NAMES[kind]
+    want = W.canon(kind, v)
+    inp = W.to_replay(kind, v)
+    ctx.case((kind, want, tag), sample={'wrapper': name, 'value': want[:160]})
+    ctx.count('wrapper:' + name)
+    choices = [(False, False)]
+    if kind == 'wm':
+        choices = [(ir, br) for ir in ((False, True) if v['msg']['init'] is not None else (False,)) for br in (False, True)]
+    encs = {ch: W.enc(kind, v, ch) for ch in choices}
+    valid = any(e is not None for e in encs.values())
+    if kind == 'wm':
+        valid = valid and must_fit(v['msg']) and 0 <= v['mode'] < 256
+    ctx.count(f'{kind}:' + ('valid' if valid else 'out-of-range-or-too-big'))
+    qvals = None if kind != 'hl' or not v['q'] else {k: W.canon('wm', x) for k, x in v['q'].items()}
+    # ---- (a) library serialize -> independent spec decoder
+    try:
+        c = W.lib_obj(kind, v).serialize()
+    except Exception as e:
+        c, err = None, repr(e)
+    d = M.Dag()
+    t = W.tok(kind, v, d)
+    ctx.expect_model(f'{"wmser" if kind == "wm" else "wser"} {d.line()} {t}', M.show_cell(c) if c is not None else 'err',
+                     f'{name}.serialize ({tag})')
+    if valid and c is None:
+        ctx.fail(f'{kind}-raises', f'{name}.serialize raised on a value whose fields are in range and whose encoding fits a cell', inp, err, 'a cell')
+    if valid and c is not None:
+        try:
+            got = W.dec(kind, c)
+        except Exception as e:
+            got = f'not a {name}: {e}'
+        if got != want:
+            if kind == 'hl' and v['root'] is not None and got == W.canon('hl', dict(v, root=None)):
+                ctx.fail('highload-old-queries-dropped', 'HighloadWalletData.serialize does not write old_queries', inp, got, want)
+            else:
+                ctx.fail(f'{kind}-spec', f'{name}.serialize does not decode (layout of the contract / TL-B declaration) to the same value', inp, got, want)
+        else:
+            dc = M.Dag()
+            ci = dc.add(c)
+            ctx.expect_model(f'wdec {dc.line()} {ci} {kind}', 'ok ' + want, f'{name}: Lean spec decoder on the library cell')
+            if kind != 'wm':
+                e0 = encs[(False, False)]
+                if (M.bits_of(c), [r.hash for r in c.refs]) != (e0[0], [r.hash for r in e0[1]]):
+                    ctx.fail(f'{kind}-enc', f'{name}.serialize is not THE encoding of the value (the layout has a single one)', inp,
+                             M.show_cell(c), M.show_cell(M.mk_cell(*e0)))
+            own, vals = lib_parse_wrapper(kind, c, v)
+            if kind == 'wm' and own == 'None':
+                ctx.fail('wallet-message-deserialize-stub', 'WalletMessage.deserialize returns None', inp, own, want)
+            elif own != want or (qvals is not None and vals != qvals):
+                ctx.fail(f'{kind}-own', f'{name}.deserialize(serialize(v)) is a different value', inp, (own, vals), (want, qvals))
+    # ---- (b) every spec encoding -> library deserialize ; (c) Lean spec encoder / model parser
+    for ch, e in encs.items():
+        d2 = M.Dag()
+        t2 = W.tok(kind, v, d2)
+        op = f'wmenc {d2.line()} {t2} {M.b01(ch[0]) + M.b01(ch[1])}' if kind == 'wm' else f'wenc {d2.line()} {t2}'
+        if e is None:
+            ctx.expect_model(op, 'err', f'{name}: Lean spec encoder (no encoding)')
+            continue
+        ec = M.mk_cell(e[0], e[1])
+        ctx.expect_model(op, M.show_cell(ec), f'{name}: Lean spec encoder')
+        got, vals = lib_parse_wrapper(kind, ec, v)
+        de = M.Dag()
+        ei = de.add(ec)
+        ctx.expect_model(f'wpar {de.line()} {ei} {kind}', 'err' if got.startswith('raised') else 'ok ' + got,
+                         f'{name}: model parser on the spec encoding')
+        ctx.expect_model(f'wdec {de.line()} {ei} {kind}', 'ok ' + want, f'{name}: Lean spec decoder on the spec encoding')
+        if kind == 'wm' and got == 'None':
+            ctx.fail('wallet-message-deserialize-stub', 'WalletMessage.deserialize returns None for a valid wallet message cell', inp, got, want)
+        elif got != want:
+            ctx.fail(f'{kind}-parse', f'{name}.deserialize of the valid encoding is a different value', inp, got, want)
+        elif qvals is not None and vals != qvals:
+            if vals is not None and set(vals) == set(qvals) and all(x == 'None' for x in vals.values()):
+                ctx.fail('wallet-message-deserialize-stub', 'HighloadWalletData.deserialize returns {query_id: None}: WalletMessage.deserialize is a stub',
+                         inp, vals, qvals)
+            else:
+                ctx.fail('hl-parse', 'HighloadWalletData.deserialize: old_queries differ', inp, vals, qvals)
+
+
+def check_out_of_range(ctx, pool):
+    """model = library on values OUTSIDE the types (error points of the model); nothing is claimed about the library here
+    except that a value without an encoding must not round-trip silently as something else of full width"""
+    pk = b'\x05' * 32
+    bad = [('v3', dict(seqno=1 << 32, wid=0, pk=pk)), ('v3', dict(seqno=-1, wid=0, pk=pk)), ('v3', dict(seqno=0, wid=1 << 32, pk=pk)),
+           ('v3', dict(seqno=0, wid=0, pk=pk[:31])), ('v3', dict(seqno=0, wid=0, pk=pk + b'\x01')), ('v3', dict(seqno=0, wid=0, pk=b'')),
+           ('v4', dict(seqno=1 << 32, wid=0, pk=pk, plugins=pool[0])), ('v4', dict(seqno=0, wid=0, pk=pk[:1], plugins=None)),
+           ('hl', dict(wid=1 << 32, lc=0, pk=pk, q=None, root=None)), ('hl', dict(wid=0, lc=1 << 64, pk=pk, q=None, root=None)),
+           ('hl', dict(wid=0, lc=-1, pk=pk, q=None, root=None)),
+           ('wm', dict(mode=256, msg=W.simple_msg(ctx.rng, pool))), ('wm', dict(mode=-1, msg=W.simple_msg(ctx.rng, pool))),
+           ('hu', dict(old=pk[:31], new=pk)), ('hu', dict(old=pk, new=pk + pk)),
+           ('nft', dict(index=1 << 64, coll=['n'], owner=['n'], content=pool[0])), ('nft', dict(index=-1, coll=['n'], owner=['n'], content=pool[0])),
+           ('fees', dict(a=['n'], f=1 << 120, b=['n'], r=0)), ('fees', dict(a=['n'], f=0, b=['n'], r=-1)),
+           ('sale', dict(c=True, t=1 << 32, m=['n'], n=['n'], o=['n'], p=0, fees=dict(a=['n'], f=0, b=['n'], r=0), e=False)),
+           ('sale', dict(c=True, t=0, m=['n'], n=['n'], o=['n'], p=1 << 120, fees=dict(a=['n'], f=0, b=['n'], r=0), e=False)),
+           ('sale', dict(c=True, t=0, m=['n'], n=['n'], o=['n'], p=0, fees=dict(a=['n'], f=1 << 120, b=['n'], r=0), e=False)),
+           ('sale', dict(c=True, t=0, m=['n'], n=['n'], o=['n'], p=0, fees=dict(a=W.ADDRS[6], f=0, b=W.ADDRS[6], r=0), e=False))]
+    for kind, v in bad:
+        check_wrapper(ctx, kind, v, 'out-of-range')
+
+
+def check_foreign_cells(ctx, pool):
+    """cells that are NOT such a value (truncated / extended encodings, wrong tag): the Lean spec decoder, the Python spec
+    decoder and the model parser are compared with the library parser (model = library; no claim on the library: its
+    parsers ignore trailing data)"""
+    rng = ctx.rng
+    for kind, v in W.boundary_values(rng, pool)[::7]:
+        if kind == 'wm':
+            continue
+        e = W.enc(kind, v)
+        if e is None:
+            continue
+        variants = [(e[0][:-1], e[1]), (e[0] + '1', e[1]), (e[0], e[1] + [pool[0]]), (e[0], e[1][:-1]), (e[0][:8][::-1] + e[0][8:], e[1])]
+        for vb, vr in variants:
+            if len(vb) > 1023 or len(vr) > 4:
+                continue
+            ec = M.mk_cell(vb, vr)
+            ctx.case(('foreign', kind, vb[:64], len(vb), len(vr)))
+            ctx.count('foreign-cells')
+            got, _ = lib_parse_wrapper(kind, ec, dict(v, root=(vr[0] if vr else None)) if kind == 'hl' else v)
+            de = M.Dag()
+            ei = de.add(ec)
+            ctx.expect_model(f'wpar {de.line()} {ei} {kind}', 'err' if got.startswith('raised') else 'ok ' + got,
+                             f'{W.NAMES[kind]}: model parser on a foreign cell')
+            try:
+                sd = 'ok ' + W.dec(kind, ec)
+            except Exception:
+                sd = 'err'
+            ctx.expect_model(f'wdec {de.line()} {ei} {kind}', sd, f'{W.NAMES[kind]}: Lean spec decoder = Python spec decoder on a foreign cell')
+            if sd != 'err' and got != sd[3:]:
+                ctx.fail(f'{kind}-parse', f'{W.NAMES[kind]}.deserialize differs from the spec decoder on a cell the decoder accepts',
+                         {'wrapper': kind, 'cell_bits': vb, 'cell_refs': len(vr)}, got, sd[3:])
+
+
+def check_wrappers(ctx, pool):
+    rng = ctx.rng
+    for kind, v in W.boundary_values(rng, pool):
+        check_wrapper(ctx, kind, v, 'boundary')
+    for _ in range(ctx.n(12, 150)):
+        for kind in W.KINDS:
+            k, v = W.rand_value(rng, pool, kind)
+            check_wrapper(ctx, k, v, 'rand')
+    check_out_of_range(ctx, pool)
+    check_foreign_cells(ctx, pool)
 
 
 # ----------------------------------------------------------------------------- run
@@ -425,11 +541,15 @@ def replay(ctx, payload):
     inp = payload.get('input') or {}
     if 'msg' in inp and 'dag' in inp:
         check_msg(ctx, msg_from_replay(inp), 'replay')
+    elif inp.get('wrapper') in W.KINDS and 'value' in inp:
+        kind, v = W.from_replay(inp)
+        check_wrapper(ctx, kind, v, 'replay')
     elif 'state_init' in inp or 'grams' in inp or 'wrapper' in inp:
         pool = M.leaf_pool(ctx.rng)
         if 'grams' in inp:
             check_currency(ctx, int(inp['grams']), {int(k): int(v) for k, v in inp['extra'].items()}, 'replay')
-        else:
+        elif 'wrapper' in inp:
             check_wrappers(ctx, pool)
+        else:
             for nr in range(4):
                 check_state_init(ctx, M.rand_state_init(ctx.rng, pool, nrefs=nr), 'replay')
